@@ -315,30 +315,16 @@ def cmdSeq : Data → List Cmd → Data × List Out
 `BoundaryConditionMixin.update_boundary_condition` (models/boundary_condition.py) pushes the current
 iterate value into the time-step history of a quantity stored on a boundary grid;
 `SolutionStrategy._revert_time_dependent_boundary_values` (models/solution_strategy.py) undoes that
-push for a rejected time step: an *un-shift* written directly on the dict. -/
+push for a rejected time step: an *un-shift* written directly on the dict.  The model follows the
+REPAIRED un-shift (known finding `revert-unshift-with-holes`): the entry-by-entry loop of the
+current code raises `KeyError` half-way on a store with holes and leaves two slots sharing an array. -/
 
-/-- `del d[k]` -/
-def aerase [DecidableEq κ] : List (κ × α) → κ → List (κ × α)
-  | [], _ => []
-  | p :: s, k => if p.1 = k then s else p :: aerase s k
-
-/-- `for i in range(count): stored[i] = stored[i + 1]`, starting at `i`; `false` = `KeyError` -/
-def unshiftLoop : Nat → Nat → Store → Store × Bool
-  | _, 0, s => (s, true)
-  | i, c + 1, s =>
-    match lookup s (i + 1) with
-    | none => (s, false)
-    | some v => unshiftLoop (i + 1) c (insert s i v)
-
-/-- `num_stored = len(stored); for i in range(num_stored - 1): stored[i] = stored[i + 1];
-    del stored[num_stored - 1]` -/
-def unshift (s : Store) : Store × Option Err :=
-  let r := unshiftLoop 0 (s.length - 1) s
-  if r.2 then
-    match lookup r.1 (s.length - 1) with
-    | none => (r.1, some .keyError)
-    | some _ => (aerase r.1 (s.length - 1), none)
-  else (r.1, some .keyError)
+/-- the un-shift `{i - 1: val for i, val in stored.items() if i > 0}` (the dict is rebuilt, see
+    fixes/C08-revert-unshift-with-holes.diff): every index moves down by one, index 0 is dropped.
+    Total: no contiguity is needed and nothing raises. -/
+def unshift : Store → Store
+  | [] => []
+  | p :: s => if 0 < p.1 then (p.1 - 1, p.2) :: unshift s else unshift s
 
 /-- body of the loop of `_revert_time_dependent_boundary_values` for one stored quantity -/
 def revertOne (d : Data) (name : String) : Data × Out :=
@@ -348,8 +334,7 @@ def revertOne (d : Data) (name : String) : Data × Out :=
     | none => (d, .ok)
     | some v0 =>
       let r1 := setSolutionValues d name v0 none (some 0) false
-      let u := unshift s
-      (dput r1.1 (Loc.timeStep, name) u.1, match u.2 with | none => .ok | some e => .err e)
+      (dput r1.1 (Loc.timeStep, name) (unshift s), .ok)
   | _, _ => (d, .ok)
 
 def revertLoop : Data → List String → Data × Out
